@@ -290,7 +290,7 @@ theorem sim_evalL (names : List String) (cfg : Cfg) (ef : Nat) (lv : LVal) :
 theorem Sim.fromNodesL (names : List String) (q : Quant) (nodes : List Nat) :
     Sim names (Strict.fromNodes q nodes : Prog LSt Val) (Strict.fromNodes q nodes) := by
   unfold Strict.fromNodes
-  cases q <;> (try cases nodes) <;> first | exact Sim.pure names _ | exact Sim.panicAt names _
+  cases q <;> (try cases nodes) <;> first | exact Sim.pure names _ | exact Sim.panicAt names _ | exact Sim.throwK names _
 
 theorem sim_lazyExprs (names : List String) (cfg : Cfg) (fuel ef : Nat) (env : Env) :
     (∀ (e : Expr), Sim names (lazyExpr cfg fuel ef env e) (lazyExpr (plainCfg cfg) fuel ef env e)) ∧
